@@ -12,7 +12,7 @@ import multiprocessing as mp
 import os
 import time
 
-from .corpus import CORPUS
+from .corpus import CORPUS, EXTRA_EDITS
 from .scratch import scratch_tree
 
 
@@ -20,7 +20,10 @@ def _one(args):
     prop, kind, rel, old, new, note, root = args
     from ..run import run_property
     try:
-        with scratch_tree(root, [(rel, old, new)]) as tmp:
+        edits = [(rel, old, new)]
+        if note in EXTRA_EDITS:
+            edits.append(EXTRA_EDITS[note])
+        with scratch_tree(root, edits) as tmp:
             import ast
             with open(os.path.join(tmp, rel)) as f:
                 ast.parse(f.read())
